@@ -16,6 +16,7 @@
 #pragma once
 
 #include <unifex/config.hpp>
+#include <unifex/continuations.hpp>
 #include <unifex/execution_policy.hpp>
 #include <unifex/fused_stop_source.hpp>
 #include <unifex/inplace_stop_token.hpp>
@@ -90,6 +91,14 @@ public:
           -> std::invoke_result_t<CPO, const Receiver&> {
     return cpo(self.receiver_);
   }
+
+#if UNIFEX_ENABLE_CONTINUATION_VISITATIONS
+  template <typename Func>
+  friend void
+  tag_invoke(tag_t<visit_continuations>, const type& self, Func&& func) {
+    std::invoke(func, self.receiver_);
+  }
+#endif
 
 private:
   UNIFEX_NO_UNIQUE_ADDRESS Operation& op_;
